@@ -21,7 +21,9 @@ Lock g_unnamed;
 std::map<void**, Lock> g_named;
 
 // per-fiber: slot 0 = Team*, slot 1 = single counter (as integer)
-Team *my_team() { return vs::in_fiber() && vs::group_kind() == 0 ? (Team*)vs::fiber_local(0) : nullptr; }
+// slot 2 = nesting depth of inline (team-of-one) regions entered by this team member
+bool nested() { return vs::in_fiber() && vs::group_kind() == 0 && vs::fiber_local(2) != nullptr; }
+Team *my_team() { return vs::in_fiber() && vs::group_kind() == 0 && !nested() ? (Team*)vs::fiber_local(0) : nullptr; }
 
 void lock_enter(Lock &l) {
     vs::point(1);                      // "about to enter": who enters first is a scheduling decision
@@ -50,10 +52,14 @@ int omp_get_level(void) { return my_team() ? 1 : 0; }
 
 void GOMP_parallel(void (*fn)(void *), void *data, unsigned num_threads, unsigned /*flags*/) {
     int n = num_threads ? (int)num_threads : vs::cfg().max_threads;
-    if (my_team() != nullptr) {
-        // amgcl never nests parallel regions; libgomp would run a team of one here
-        fprintf(stderr, "gomp_fiber: nested parallel region inside a team is not supported\n");
-        abort();
+    if (vs::in_fiber() && vs::group_kind() == 0) {
+        // nested region (e.g. idrs.hpp: copy_vector inside `omp single`): libgomp's default
+        // (nesting disabled) runs it as a team of one on the encountering thread
+        intptr_t d = (intptr_t)vs::fiber_local(2);
+        vs::fiber_local(2) = (void*)(d + 1);
+        struct Restore { intptr_t d; ~Restore() { vs::fiber_local(2) = (void*)d; } } r{d};
+        fn(data);
+        return;
     }
     if (n <= 1) { fn(data); return; }   // team of one: run inline (also from an MPI rank fiber)
     Team t; t.n = n;
